@@ -516,6 +516,34 @@ pub fn behaviour(seed: u64, n: u64) -> Out {
                         }
                     }
                 }
+                // sentinel flavour: a Config naming neither goes to the same default local server (the Config
+                // that `Default` builds names its sentinel 127.0.0.1:26379 explicitly and is a different case);
+                // a listener on 26379 tells "went elsewhere" from "went nowhere"
+                let before = def.n_conns();
+                let other = start(26379).await.ok();
+                let scfg = deadpool_redis::sentinel::Config { urls: None, connections: None, server_type: Default::default(), master_name: "mymaster".into(), node_connection_info: None, pool: None };
+                o.case("sentinel with neither urls nor connections", true);
+                match scfg.create_pool(Some(Runtime::Tokio1)) {
+                    Err(e) => o.bad("default_server_not_used", format!("sentinel create_pool failed: {}", e), "sentinel with neither urls nor connections"),
+                    Ok(pool) => {
+                        let r = tokio::time::timeout(Duration::from_secs(5), pool.get()).await;
+                        let elsewhere = other.as_ref().map(|x| x.0.n_conns()).unwrap_or(0);
+                        if def.n_conns() == before {
+                            o.bad(
+                                "default_server_not_used",
+                                format!("sentinel pool with neither urls nor connections did not contact 127.0.0.1:6379 ({} connections seen on 127.0.0.1:26379; get: {:?})", elsewhere, r.map(|x| x.map(|_| ()).map_err(|e| format!("{:?}", e)))),
+                                "sentinel with neither urls nor connections",
+                            );
+                        } else if elsewhere > 0 {
+                            o.bad("other_server_contacted", format!("sentinel pool with neither urls nor connections also contacted 127.0.0.1:26379 ({} connections)", elsewhere), "sentinel with neither urls nor connections");
+                        } else {
+                            o.bump("sentinel_default_server_contacted");
+                        }
+                    }
+                }
+                if let Some((_, _, h2)) = other {
+                    h2.abort();
+                }
                 h.abort();
             }
         }
